@@ -23,13 +23,30 @@ package app
 // same mode; a duty that is skipped on some path — moved under a condition, dropped in a refactoring — silently stops
 // maturing undelegations, paying rewards, freezing validators, queueing internal transactions ...). Properties C10, C12,
 // C13, C14, C15 and C19 rest on these calls happening in every block.
+// ---- C01 (reduced scope): sources of divergence between two runs of the same block history
+// `nowrite @nondet`: over the call graph of each consensus entry point nothing reads the wall clock, randomness, the
+// environment or the process identity, starts a goroutine, selects, or ranges over a map - except at the sites listed, each
+// with the reason it cannot reach the state, the validator updates or a transaction result:
+//   nondet:time.Now@log                       the logger's time stamps (log output only)
+//   nondet:...uuid.NewUUID@<runner>           memo of the internal transaction handed to ProcessDeliver; no handler stores the memo
+//   nondet:time.Now@event.NewBTCCheckFinalityJob   creation time of a node-local job record (job store, not chain state)
+//   maprange:<function>                       functions that range over a map and are under a PROVED contract: in the VC semantics a
+//                                             map range visits the domain in an order given by an uninterpreted permutation, so
+//                                             every postcondition proved for them holds for every order (handleBlockRewards,
+//                                             CheckMaliciousValidators, CleanTracker, ExecuteAllegationTracker, GetEndBlockUpdate:
+//                                             collects the keys and sorts them) - or whose body is order-insensitive by
+//                                             inspection and assumed (StorageRouter.WithState: one assignment per store;
+//                                             cacheSession.Iterate, mapkey, GetCurrencies: assumed contracts, listed as such)
+// A call or a map range added anywhere else in these call graphs fails the obligation.
 //@ func (*App).blockBeginner$1
 //@   aimcheck app.Context.deliver                // C07.aim
+//@   nowrite @nondet @except:nondet:time.Now@log @except:nondet:github.com/google/uuid.NewUUID@bid_block_func.PopExpireBidTxFromQueue @except:maprange:(*data.StorageRouter).WithState @except:maprange:(*identity.ValidatorStore).CheckMaliciousValidators @except:maprange:(*storage.cacheSession).Iterate @except:maprange:app.handleBlockRewards     // C01.no-divergence-source
 //@   mustcall (*app.App).applyUpdate, (*fees.Store).SetupOpt, app.ManageVotes, (*identity.ValidatorStore).Setup, app.addMaturedAmountsToBalance, (*identity.ValidatorStore).CheckMaliciousValidators, app.handleBlockRewards, app.AddInternalTX     // C07.hooks-run
 //@   aimexempt transactions.TransactionStore     // the internal-transaction queue lives in its own State, never re-aimed by Action()
 
 //@ func (*App).txDeliverer$1
 //@   aimcheck app.Context.deliver                // C07.aim
+//@   nowrite @nondet @except:nondet:time.Now@log @except:maprange:(*data.StorageRouter).WithState @except:maprange:(*evidence.EvidenceStore).CleanTracker @except:maprange:ethereum.mapkey     // C01.no-divergence-source
 //@   aimexempt transactions.TransactionStore     // the internal-transaction queue lives in its own State, never re-aimed by Action()
 // ---- C06.store-memo: in-memory state of long-lived objects written while a transaction is delivered
 // DiscardTxSession undoes what went through storage.State and nothing else. Over the whole call graph of txDeliverer$1
@@ -73,11 +90,13 @@ package app
 
 //@ func (*App).blockEnder$1
 //@   aimcheck app.Context.deliver                // C07.aim
+//@   nowrite @nondet @except:nondet:time.Now@log @except:nondet:time.Now@event.NewBTCCheckFinalityJob @except:nondet:github.com/google/uuid.NewUUID@app.ExpireProposals @except:nondet:github.com/google/uuid.NewUUID@app.FinalizeProposals @except:nondet:github.com/google/uuid.NewUUID@bid_block_func.PopExpireBidTxFromQueue @except:maprange:(*data.StorageRouter).WithState @except:maprange:(*evidence.EvidenceStore).CleanTracker @except:maprange:(*identity.ValidatorStore).ExecuteAllegationTracker @except:maprange:(*identity.ValidatorStore).GetEndBlockUpdate @except:maprange:(*storage.cacheSession).Iterate @except:maprange:(balance.CurrencySet).GetCurrencies     // C01.no-divergence-source
 //@   mustcall (*identity.ValidatorStore).GetEndBlockUpdate, (*identity.ValidatorStore).ClearEvents, app.doTransitions, app.doEthTransitions, app.ExpireProposals, app.FinalizeProposals     // C07.hooks-run
 //@   aimexempt transactions.TransactionStore     // the internal-transaction queue lives in its own State, never re-aimed by Action()
 
 //@ func (*App).commitor$1
 //@   aimcheck app.Context.deliver                // C07.aim
+//@   nowrite @nondet @except:nondet:time.Now@log @except:maprange:(*storage.cacheSession).Iterate     // C01.no-divergence-source
 //@   mustcall (*storage.State).Commit            // C07.hooks-run
 
 // ---- their helpers in package app that receive the context (not a store): checked on their own, entry aims arbitrary
